@@ -672,7 +672,7 @@ pub fn fuzz_one<P: Property>(p: &P, data: &[u8]) -> Option<String> {
         data.hash(&mut h);
         h.finish() | 1
     };
-    let tail_words: usize = std::env::var("PVERIF_FUZZ_TAIL").ok().and_then(|s| s.parse().ok()).unwrap_or(2048);
+    let tail_words: usize = std::env::var("PVERIF_FUZZ_TAIL").ok().and_then(|s| s.parse().ok()).unwrap_or(16384);
     for _ in 0..tail_words {
         x ^= x << 13;
         x ^= x >> 7;
